@@ -416,9 +416,15 @@ SOLVES = [
 
 def gen_case(rng, circuit_friendly=False):
     nv = rng.randint(2, 4)
+    five = not circuit_friendly and rng.random() < 0.08        # five variables over tiny domains: sums with 5 distinct terms
+    if five:
+        nv = 5
     vars_, doms = [], []
     for i in range(nv):
-        if circuit_friendly:
+        if five:
+            lb = rng.randint(-1, 1)
+            ub = lb + rng.choice([1, 1, 2])
+        elif circuit_friendly:
             lb, ub = (0, nv - 1) if rng.random() < 0.6 else (rng.randint(0, 1), rng.randint(nv - 2, nv))
             ub = max(ub, lb)
         else:
@@ -429,6 +435,10 @@ def gen_case(rng, circuit_friendly=False):
         doms.append([lb, ub])
     ncon = rng.choice([1, 1, 1, 2, 2, 3])
     cons = [gen_con(rng, nv, doms) for _ in range(ncon)]
+    if five:
+        vs = list(range(5))
+        rng.shuffle(vs)
+        cons[0] = [rng.choice(["sum_eq", "sum_le", "sum_ge"]), vs, rng.randint(sum(d[0] for d in doms), sum(d[1] for d in doms))]
     if circuit_friendly:
         cons[0] = ["circuit", list(range(nv)) if rng.random() < 0.8 else rng.sample(range(nv), nv)]
     solves = [dict(s) for s in SOLVES]
